@@ -99,6 +99,10 @@ namespace sqf::runtime
 
     private:
         void clear_values_helper(runtime& runtime);
+        // True if the run has to end (exit requested / maximum runtime reached).
+        // Used where a behavior restarts a frame that has no instructions, as
+        // no instruction execution polls these conditions then.
+        bool run_ended_helper(runtime& runtime);
     public:
         static const size_t position_invalid = ~(size_t)0;
         frame() :
@@ -291,6 +295,12 @@ namespace sqf::runtime
                 case behavior::result::seek_start:
                     seek(0, ::sqf::runtime::frame::seekpos::start);
                     clear_values_helper(runtime);
+                    if (m_instruction_set.empty() && run_ended_helper(runtime))
+                    {
+                        seek(0, ::sqf::runtime::frame::seekpos::end);
+                        m_die = true;
+                        return result::done;
+                    }
                     goto start; // do not call here, reuse current stack
                 case behavior::result::exchange:
                     m_instruction_set = m_exit_behavior->get_instruction_set(*this);
